@@ -1,6 +1,6 @@
 (* Props/C06.v — a successful Set is visible and is never lost without a reason (admission part) *)
 From Coq Require Import ZArith List Bool.
-From Verif Require Import Base.Word64 Model.Expiry Model.Store Proof.StoreMap Proof.StoreBasic Model.Bloom Proof.BloomP Gen.Kernels Proof.KernelSync.
+From Verif Require Import Base.Word64 Model.Expiry Model.Store Model.Policy Proof.PolicyI Proof.PolicyO Proof.PressureP Proof.StoreMap Proof.StoreBasic Model.Bloom Proof.BloomP Gen.Kernels Proof.KernelSync.
 Import ListNotations.
 Open Scope Z_scope.
 
@@ -47,6 +47,20 @@ Example c06_example :
   snd (sget (set_nowc s2 200) 1 200 0) = [1; 12] /\
   fst (fst (sset3 s2 2 5 11 0 200 222 true)) = s2.
 Proof. vm_compute. repeat split. Qed.
+
+(* eviction only under capacity pressure: a new entry that fits into the policy evicts nothing (the policy may
+   move window overflow to probation, nothing more), and whenever the policy total is within capacity
+   evictEntries evicts nothing and tracks the same entries as before *)
+Theorem c06_fitting_insert_evicts_nothing : forall p e a0 rnd,
+  PInv p -> region p (pid e) = 0 -> 1 <= pw e <= pcap p -> - two63 < a0 < two63 ->
+  wsz p + pw e <= pcap p -> snd (pset p e a0 rnd) = [].
+Proof. exact pset_no_pressure. Qed.
+Print Assumptions c06_fitting_insert_evicts_nothing.
+
+Theorem c06_no_eviction_within_capacity : forall p rnd, Core p -> wsz p <= pcap p ->
+  snd (evictEntries p rnd) = [] /\ fst (evictEntries p rnd) = fst (evictFromWindow p).
+Proof. exact evict_under_capacity. Qed.
+Print Assumptions c06_no_eviction_within_capacity.
 
 (* ---- the doorkeeper itself ("sees the key for the first time").  In the theorems above its verdict dk is an
    input; here it is the Bloom filter of internal/bf/bf.go with the shard's reset counter and growth rule
